@@ -62,6 +62,9 @@ FAMILIES = {
     "weekday-month-year": (["friday", " ", "march", " ", ("Y", 4)], {"month", "year"}),
     "weekday-month": (["monday", " ", "january"], {"month"}),
     "weekday-year": (["sunday", " ", ("Y", 4)], {"year"}),
+    # two month names and a year, no day ("mar mar 2015" is what es/it/pt 'Tuesday March' becomes)
+    "month-month-year": (["march", " ", "april", " ", ("Y", 4)], {"month", "year"}),
+    "month-same-month-year": (["march", " ", "march", " ", ("Y", 4)], {"month", "year"}),
     "full-words": ([("D", 2), " ", "march", " ", ("Y", 4)], {"day", "month", "year"}),
     "full-words-time": ([("D", 2), " ", "march", " ", ("Y", 4), " ", ("H", 2), ":", ("T", 2)],
                         {"day", "month", "year"}),
@@ -134,6 +137,12 @@ class strictness_only_filters:
         for name in nl:
             if thorough or name.endswith(("y2", "YMD-y0", "DYM-y1")):
                 out.append(dict(STRICT_PARSING=True, REQUIRE_PARTS=[], family=name))
+        # a satisfied requirement must not disturb the completion of the parts that are NOT required
+        for fam, req in (("month-year", ["month"]), ("month-year", ["year"]), ("month-year", ["month", "year"]),
+                         ("year", ["year"]), ("month", ["month"])):
+            for pd, pm in (("first", "last"), ("last", "first")):
+                out.append(dict(STRICT_PARSING=False, REQUIRE_PARTS=req, family=fam,
+                                PREFER_DAY_OF_MONTH=pd, PREFER_MONTH_OF_YEAR=pm))
         return out
 
     @staticmethod
@@ -154,6 +163,9 @@ class strictness_only_filters:
         base = dict(RELATIVE_BASE=now, TIMEZONE="UTC")
         if order:
             base["DATE_ORDER"] = order
+        for k in ("PREFER_DAY_OF_MONTH", "PREFER_MONTH_OF_YEAR"):
+            if k in case:
+                base[k] = case[k]
         strict = make_settings(STRICT_PARSING=case["STRICT_PARSING"],
                                REQUIRE_PARTS=list(case["REQUIRE_PARTS"]), **base)
         off = make_settings(**base)
